@@ -74,6 +74,33 @@ def getIdxGatedB (t : List Row) : Bool :=
   let rs := (rowsOf t "DB.Get").filter fun r => r.action == "idxGet"
   !rs.isEmpty && rs.all fun r => r.mode != .none
 
+/-- In `DB.Get` the index read and the look-up of the data file (`activeFile` / `olderFiles`) happen
+in ONE R section of `db.mu`: no writer (in particular no batch) can act between the two. -/
+def getOneSectionB (t : List Row) : Bool :=
+  let rs := rowsOf t "DB.Get"
+  let xs := rs.filter fun r => r.action == "idxGet"
+  let ys := rs.filter fun r => r.action == "read:activeFile" || r.action == "read:olderFiles"
+  !xs.isEmpty && !ys.isEmpty &&
+  xs.all fun x => x.mode == .R && x.sect != 0 && ys.all fun y => y.mode == .R && y.sect == x.sect
+
+def GetOneSection (t : List Row) : Prop := getOneSectionB t = true
+instance (t : List Row) : Decidable (GetOneSection t) := inferInstanceAs (Decidable (_ = _))
+
+/-- Every read of the index CONTENT (`idxGet`: `DB.Get`, the existence checks of `DB.Delete` /
+`Batch.Delete` / `Batch.Get`, the liveness test of `DB.Merge`; `idxIter`: the snapshots of
+`ListKeys`, `Fold`, `NewIterator`) on a shared handle happens with `db.mu` held, so none of them
+can observe the index updates of an open batch.  (`idxSize` is not included: `ListKeys` uses the
+live size only as a capacity hint.) -/
+def indexReadsLockedB (t : List Row) : Bool :=
+  (t.all fun r => exempt r.method || !(r.action == "idxGet" || r.action == "idxIter") ||
+    r.mode != .none) &&
+  (["DB.Get", "DB.Merge"].all fun m => (rowsOf t m).any fun r => r.action == "idxGet") &&
+  (["DB.ListKeys", "DB.Fold", "DB.NewIterator"].all fun m =>
+    (rowsOf t m).any fun r => r.action == "idxIter")
+
+def IndexReadsLocked (t : List Row) : Prop := indexReadsLockedB t = true
+instance (t : List Row) : Decidable (IndexReadsLocked t) := inferInstanceAs (Decidable (_ = _))
+
 /-- the shape of `Model/ConcBatch.lean` the table stands for -/
 def batchShapeOf (t : List Row) : XixiKV.ConcBatch.Shape := { getIdxGated := getIdxGatedB t }
 
